@@ -148,9 +148,14 @@ func VerifHarness_C13_O2() { verifC13Joiner(false) }
 // peer, which never becomes active) is committed after the joiner's reset: the
 // set the joiner derives from it must be derived from the set the anchor
 // carried, not from what the joiner knew before.
-func VerifHarness_C13_O4() { verifC13Joiner(true) }
+func VerifHarness_C13_O4() {
+	if verifC13Joiner(true) {
+		verifReach("second-join-effective-on-the-full-history-nodes")
+	}
+	verifReach("end-o4")
+}
 
-func verifC13Joiner(secondJoin bool) {
+func verifC13Joiner(secondJoin bool) (secondEffective bool) {
 	s := verifNewSys(3)
 	// the joiner: a core of its own, not in the genesis set
 	jp := verifPeer(3)
@@ -279,7 +284,7 @@ func verifC13Joiner(secondJoin bool) {
 			}
 		}
 		if rr2 >= 0 && last >= rr2+6 {
-			verifReach("second-join-effective-on-the-full-history-nodes")
+			secondEffective = true
 		} else {
 			want = 4
 		}
@@ -292,6 +297,7 @@ func verifC13Joiner(secondJoin bool) {
 		verifReach("joiner-created-events-of-its-own")
 	}
 	verifReach("end")
+	return secondEffective
 }
 
 // C13/O3 — a node that already has a chain of its own resets itself from an
